@@ -458,6 +458,8 @@ def rule_R10_gates(text):
         return 'verif_cpu_has_' + re.sub(r'\W', '_', mm.group(1)) + '()'
     text, k = re.subn(r'\bis_x86_feature_detected!\(\s*"([^"]+)"\s*\)', cpu, text)
     n += k
+    text, k = re.subn(r'\b(?:std::arch::)?is_aarch64_feature_detected!\(\s*"([^"]+)"\s*\)', cpu, text)
+    n += k
     text, k = re.subn(r'\bTypeId::of::<', 'verif_type_id::<', text)
     return text, n + k
 
@@ -542,7 +544,7 @@ class Generator:
     def _process_template(self, path, subst=None):
         lines = self._read_template(path)
         if subst:
-            lines = [re.sub(r'\$(\w+)', lambda mm: subst.get(mm.group(1), mm.group(0)), ln) for ln in lines]
+            lines = [re.sub(r'\$\{(\w+)\}|\$(\w+)', lambda mm: subst.get(mm.group(1) or mm.group(2), mm.group(0)), ln) for ln in lines]
         rel = os.path.relpath(path, os.path.dirname(VX_DIR))
         i = 0
         cond_stack = []  # booleans: active?
